@@ -49,6 +49,7 @@ type Tr struct {
 	// Damaged describes the damage done ("" if none).
 	Damaged   string
 	damageAt  int
+	inDictKey int
 	// ListCount is the number of list constructs built so far (the File's own item list included).
 	ListCount int
 }
@@ -73,7 +74,9 @@ var CommentTexts = []string{"plain", "x := y{", "} else {", "\"quoted\" `back` '
 func (t *Tr) cmt(items []jen.Code) []jen.Code { return t.cmt2(items, true) }
 
 func (t *Tr) cmt2(items []jen.Code, endOK bool) []jen.Code {
-	if !t.knobs.Comments {
+	if !t.knobs.Comments || t.inDictKey > 0 {
+		// Inside a Dict key a comment is part of the key's rendered text, by which Dict orders its pairs
+		// (C16): the pairs may then legitimately come out in another order, so no comment goes there.
 		return items
 	}
 	text := func() string {
@@ -565,7 +568,9 @@ func (t *Tr) expr(e ast.Expr) *jen.Statement {
 			var pairs [][2]jen.Code
 			for _, el := range x.Elts {
 				kv := el.(*ast.KeyValueExpr)
+				t.inDictKey++
 				k := t.expr(kv.Key)
+				t.inDictKey--
 				v := t.expr(kv.Value)
 				d[k] = v
 				pairs = append(pairs, [2]jen.Code{k, v})
